@@ -22,7 +22,7 @@ RULE = ('generated dense KS/phy source directories (tens of spikes, 3-8 channels
 EXHAUSTIVE = {'quick': False, 'thorough': False}
 CLAUSES = {
     1: 'observed output / source directory differs from the Coq model PV.C13.Model.convert (file set, dtypes, shapes, determined values)',
-    20: 'conversion of a well-formed dense dataset failed',
+    20: 'conversion of a well-formed dense dataset (or the read-back of its output) failed',
     21: 'C13_rows: first dimension of every spikes.* / clusters.* / templates.* / channels.* file (and number of uuids)',
     22: 'C13_units: spikes.samples are the source samples, spikes.times = samples / sample_rate (seconds)',
     23: 'C13_label: label inserted before the extension of exactly the spikes/clusters/templates/channels files',
@@ -85,7 +85,7 @@ def generate(tier, rng):
     for force in CORPUS:
         for _ in range(reps):
             cases.append({'kind': 'convert', 'inp': D13.gen(rng, **force)})
-    n_rand = {'quick': 25, 'thorough': 900, 'search': 300}[tier]
+    n_rand = {'quick': 60, 'thorough': 900, 'search': 200}[tier]
     # every pair of values of the main axes (random completion of the others)
     pairs = []
     for i, (a, va) in enumerate(AXES):
@@ -210,8 +210,14 @@ def run_case(case):
             obs['new'] = sorted((k, v) for k, v in npy1.items() if k not in hashes0)
             obs['new_other'] = sorted(k for k in other1 if k not in hashes0)
             if m2 is None:
-                m2 = TemplateModel(dir_path=out, sample_rate=kw['sample_rate'], n_channels_dat=kw['n_channels_dat'],
-                                   dtype=kw['dtype'], offset=kw['offset'])
+                # no params.py was copied: convert() returned nothing, read the directory back by hand
+                try:
+                    m2 = TemplateModel(dir_path=out, sample_rate=kw['sample_rate'], n_channels_dat=kw['n_channels_dat'],
+                                       dtype=kw['dtype'], offset=kw['offset'])
+                except Exception as e:  # noqa
+                    obs['outcome'], obs['info'] = 'crash', 'read-back %s: %s' % (type(e).__name__, str(e)[:160])
+                    m.close()
+                    return ('c13', obs)
             obs['rl'] = {'samples': _ta(m2.spike_samples), 'times': _ta(m2.spike_times), 'sclusters': _ta(m2.spike_clusters),
                          'stemplates': _ta(m2.spike_templates), 'cmap': _ta(m2.channel_mapping), 'pos': _ta(m2.channel_positions)}
             m2.close()
